@@ -152,8 +152,38 @@ class Translator:
             return sp.Symbol("OPAQUE_%s_%d" % (type(e).__name__, abs(hash(norm_src(e))) % 100000))
         raise Untranslatable("expression %s" % type(e).__name__)
 
+    def reduction_call(self, e):
+        """functools.reduce(np.maximum|max|np.minimum|min, [key(x) for x in S], seed) and max/min(<comprehension>[, default=seed]):
+        REDUCE_op(seed, S, key(ELEM)) - the same term the loop form `acc = seed; for x in S: acc = op(acc, key(x))` gets."""
+        name = norm_src(e.func)
+        comp = seed = op = None
+        if name in ("functools.reduce", "reduce") and len(e.args) in (2, 3) and not e.keywords:
+            op = {"np.maximum": "max", "max": "max", "numpy.maximum": "max", "np.minimum": "min", "min": "min", "numpy.minimum": "min"}.get(norm_src(e.args[0]))
+            comp = e.args[1]
+            seed = e.args[2] if len(e.args) == 3 else None
+        elif name in ("max", "min", "np.max", "np.min", "np.amax", "np.amin") and len(e.args) == 1:
+            op = "max" if name.endswith("max") else "min"
+            comp = e.args[0]
+            kws = {k.arg: k.value for k in e.keywords}
+            if set(kws) - {"default", "initial"}:
+                return None
+            seed = kws.get("default", kws.get("initial"))
+        if op is None or not isinstance(comp, (ast.ListComp, ast.GeneratorExp)) or len(comp.generators) != 1 or comp.generators[0].ifs or \
+                not isinstance(comp.generators[0].target, ast.Name) or seed is None:
+            return None
+        x = comp.generators[0].target.id
+
+        class R(ast.NodeTransformer):
+            def visit_Name(self, n):
+                return ast.copy_location(ast.Name(id="ELEM", ctx=n.ctx), n) if n.id == x else n
+        key = R().visit(ast.parse(ast.unparse(comp.elt), mode="eval").body)
+        return sp.Function("REDUCE_" + op)(self.tr(seed), self.tr(comp.generators[0].iter), self.tr(key))
+
     def call(self, e):
         name = norm_src(e.func)
+        r = self.reduction_call(e)
+        if r is not None:
+            return r
         parts = name.split(".")
         fn = parts[-1]
         ns = parts[0] if len(parts) > 1 else None
